@@ -484,8 +484,8 @@ def o_dropout(inp):
     if out[0] == 'raise':
         if out[1] == 'ValueError':
             return None                               # refusing the record is allowed by the property
-        if out[1] == 'LinAlgError':
-            return {'tag': f'{name}/raises-LinAlgError', 'observed': list(out[1:]), 'expected': 'unit quaternions or ValueError'}
+        if out[1] == 'LinAlgError':               # covariance lost positive definiteness: one tag per filter class
+            return {'tag': f'{cls}/raises-LinAlgError', 'observed': list(out[1:]), 'expected': 'unit quaternions or ValueError'}
         return {'tag': f'{name}/{sensors}/raises-{out[1]}', 'observed': list(out[1:])}
     od, Qd = out[1]
     if Qd.shape != Qref.shape:
